@@ -9,8 +9,10 @@ CONSTANTS
   MaxFields = 2
   MaxConsts = 2
   CKinds = {"int", "text", "msgid", "method"}
-  Kinds = {"?", "H", "I", "q", "20s", "varlenH", "varlenHutf8", "bits", "payload", "payload-list", "address", "arrayH-q", "raw"}
+  Kinds = {"?", "H", "I", "q", "20s", "varlenH", "varlenHutf8", "bits", "payload", "payload-list", "address", "arrayH-q", "d", "arrayH-?", "arrayH-d", "raw"}
 INVARIANT RoundTripDef
 INVARIANT DefaultsUsed
 INVARIANT ConstsOffWire
+INVARIANT AnnotationsMean
 CONSTRAINT MembersFocus
+CONSTRAINT AnnFocus
